@@ -797,6 +797,19 @@ func untypedFeasible(t *cqlT, v *val) bool {
 	if t.kind == "map" && t.kids[0].kind == "scalar" && t.kids[0].sc.fam == famBytes {
 		return false
 	}
+	if t.kind == "list" || t.kind == "set" || t.kind == "map" {
+		// a non-null collection needs the Go type of its elements, whatever they hold: no blob-keyed map may
+		// occur anywhere below it (tuples and udts are []interface{} / map[string]interface{} whatever they hold)
+		bad := false
+		t.walk(func(n *cqlT) {
+			if n != t && n.kind == "map" && n.kids[0].kind == "scalar" && n.kids[0].sc.fam == famBytes {
+				bad = true
+			}
+		})
+		if bad {
+			return false
+		}
+	}
 	for i := range v.kids {
 		if !untypedFeasible(t.valueKid(i), v.kids[i]) {
 			return false
